@@ -232,6 +232,7 @@ def classify(msg):
     if "already defined" in m and "label" in m: return "labeldup"
     if "no visible label" in m: return "gotonolabel"
     if "cannot mix `goto` and `defer`" in m: return "gotodefer"
+    if "`goto` statement cannot jump out of a `defer` block" in m: return "gotodefer"
     if "undeclared symbol" in m: return "undeclared"
     if "attempt to access upvalue" in m: return "upvalue"
     if "cannot assign a constant variable" in m: return "constassign"
